@@ -32,6 +32,9 @@ var errCatalogue = []shape{
 	{`[for x in s : x.foo]`, kList}, {`[for k, v in s : upper(k, v)]`, kMap}, {`{for k, v in s : k => v.nope}`, kMap},
 	{`[for x in s : x + 1]`, kTup}, {`"%{for x in s}${x.y}%{endfor}"`, kList},
 	{`b ? {(s) = 1} : {x = [1]}`, kStr}, {`b ? [{(s) = 1}] : [{x = "y"}, 2]`, kStr}, {`[for v in [{(s) = 1}] : v.nope]`, kStr},
+	// the secret as the only attribute NAME of a marked object in scope
+	{`s.nope`, kKeyObj}, {`s[0]`, kKeyObj}, {`s + 1`, kKeyObj}, {`l[s]`, kKeyObj}, {`upper(s)`, kKeyObj}, {`s ? 1 : 2`, kKeyObj},
+	{`"${s}"`, kKeyObj}, {`[s, p].x`, kKeyObj}, {`b ? s : [1]`, kKeyObj}, {`s == p ? nosuch : 1`, kKeyObj},
 	{`{a = s}.b`, kStr}, {`[s].x`, kStr}, {`{(s) = 1}.nope`, kStr}, {`{(s) = 1}[0]`, kStr},
 }
 
@@ -60,7 +63,13 @@ func H_Secrecy() {
 	placement := vf.Concretize(vf.Choice(2))
 	mark := func(v cty.Value) cty.Value { return v.Mark("sensitive") }
 	var sv cty.Value
-	if sh.k == kMap && placement == 1 {
+	if sh.k == kKeyObj {
+		sv = cty.ObjectVal(map[string]cty.Value{secret: cty.StringVal("v")}).Mark("sensitive")
+		if placement == 1 {
+			// ... nested in an unmarked tuple-typed variable is not expressible here; two attributes instead
+			sv = cty.ObjectVal(map[string]cty.Value{secret: cty.StringVal("v"), "b": cty.True}).Mark("sensitive")
+		}
+	} else if sh.k == kMap && placement == 1 {
 		// the secret as a map KEY of a marked map
 		sv = cty.MapVal(map[string]cty.Value{secret: cty.StringVal("v"), "b": cty.StringVal("w")}).Mark("sensitive")
 	} else {
@@ -96,7 +105,6 @@ func H_Secrecy() {
 		vf.AssertKnown(!leak(buf.String(), secret), "rendered-diagnostic-leaks-secret: "+sh.src, "C19-duplicate-object-key", dupKey)
 	}
 }
-
 
 var secrecyBodies = []struct {
 	json bool
